@@ -60,6 +60,8 @@ class Path:
                 return "err:checksum"
             if isinstance(e, VOpaque) and e.tag.startswith("ext:") is False and "stub:" in e.tag:
                 return "err:decode"
+            if any(ev[0] == "capacity_err" for ev in self.events):
+                return "err:capacity"
             return "err:other"
         return "?"
 
